@@ -1,17 +1,31 @@
 ------------------------------ MODULE TraceC05 ------------------------------
-(* Code -> spec for C05.  Each case is one recorded run of the text line of StubRoundTrip on     *)
-(* the real code: a stub AST (emitted by pytype for a program, or built from a StubGen           *)
-(* behaviour) was printed, parsed back, verified, re-printed, re-parsed, canonicalised and       *)
-(* loaded through the loader; every event carries the outcome and the digest of the artifact.    *)
+(* Code -> spec for C05.  Each case is one stub AST (emitted by pytype for a program, or built   *)
+(* from a StubGen behaviour) with its recorded runs of the text line of StubRoundTrip on the     *)
+(* real code: printed, parsed back, verified, re-printed, re-parsed, canonicalised, loaded        *)
+(* through the loader; every event carries the outcome and the digest of the artifact.           *)
+(*   events     the main run (the stub as it is) - the only run that yields a verdict             *)
+(*   devs       the documented deviations whose trigger occurs in the stub                         *)
+(*   variants   counterfactual runs <<without, events>>: the same stub with the triggers of the    *)
+(*              deviations `without` removed (all of devs; and devs minus one, for each)           *)
 (* The spec state is advanced with StubRoundTrip's own actions (an event that the protocol does   *)
 (* not allow in the current phase stops the walk: POSTCONDITION Done fails = machinery error).    *)
-(* At the end of a run the verdict is C05Fails(art); BAD lines name every violated clause,       *)
-(* NOTE lines the observations that are not part of the property.  Verdicts are total.           *)
+(* At the end of the last run of a case the verdict is C05Fails of the main run; BAD lines name   *)
+(* every violated clause and the attribution:                                                     *)
+(*   attr = the deviations that explain the failure: the run with all of devs neutralised is     *)
+(*          clean, and d is in attr iff neutralising all but d still fails (all of devs if that   *)
+(*          singles out none); {"unexplained"} if no trigger is present or the fully neutralised  *)
+(*          run still fails (its clauses are `residual`).                                         *)
+(* NOTE lines carry the observations that are not part of the property.  Verdicts are total.      *)
 EXTENDS StubRoundTrip, Json, IOUtils, TLCExt
 
 Cases == JsonDeserialize(IOEnv.TRACE_FILE)
 
-VARIABLES i, k
+VARIABLES i,      \* case
+          v,      \* run of the case: 1 = main, 1 + x = variant x
+          k,      \* events of the run consumed so far
+          acc     \* fails of the finished runs of the case, notes of the main run
+
+ToSetT(s) == {s[x] : x \in DOMAIN s}
 
 Apply(e) ==
   CASE e.op = "Print"   -> PrintStub(e.ok, e.d)
@@ -23,32 +37,59 @@ Apply(e) ==
     [] e.op = "Resolve" -> ResolveText(e.ok)
     [] e.op = "Compare" -> CompareOrig(e.ok, e.e)
 
-TInit == i = 1 /\ k = 0 /\ line = "text" /\ phase = "start" /\ art = Art0 /\ TLCSet(1, FALSE)
+NRuns(c) == 1 + Len(c.variants)
+Events(c, r) == IF r = 1 THEN c.events ELSE c.variants[r - 1].events
+
+TInit == /\ i = 1 /\ v = 1 /\ k = 0 /\ acc = <<>>
+         /\ line = "text" /\ phase = "start" /\ art = Art0 /\ TLCSet(1, FALSE)
+
+RunFails(c, r) ==
+  C05Fails(art)
+  \cup (IF Ended THEN {} ELSE {"incomplete"})                            \* the recording stopped early
+  \cup (IF r > 1 \/ c.emit_eq THEN {} ELSE {"emitted-text"})             \* pyi # Print(ast) + newline
 
 StepEvent ==
-  /\ i <= Len(Cases) /\ k < Len(Cases[i].events)
-  /\ Apply(Cases[i].events[k + 1])
-  /\ k' = k + 1 /\ i' = i
+  /\ i <= Len(Cases) /\ k < Len(Events(Cases[i], v))
+  /\ Apply(Events(Cases[i], v)[k + 1])
+  /\ k' = k + 1 /\ UNCHANGED <<i, v, acc>>
+
+NextRun ==
+  /\ i <= Len(Cases) /\ k = Len(Events(Cases[i], v)) /\ v < NRuns(Cases[i])
+  /\ acc' = Append(acc, [fails |-> RunFails(Cases[i], v), notes |-> C05Notes(art)])
+  /\ v' = v + 1 /\ k' = 0 /\ i' = i /\ Start("text")
 
 NextCase ==
-  /\ i <= Len(Cases) /\ k = Len(Cases[i].events)
-  /\ i' = i + 1 /\ k' = 0 /\ Start("text")
+  /\ i <= Len(Cases) /\ k = Len(Events(Cases[i], v)) /\ v = NRuns(Cases[i])
+  /\ i' = i + 1 /\ v' = 1 /\ k' = 0 /\ acc' = <<>> /\ Start("text")
   /\ (i' > Len(Cases) => TLCSet(1, TRUE))
 
-TNext == StepEvent \/ NextCase
+TNext == StepEvent \/ NextRun \/ NextCase
 
-AtEnd == i <= Len(Cases) /\ k = Len(Cases[i].events)
+AtEnd == i <= Len(Cases) /\ k = Len(Events(Cases[i], v)) /\ v = NRuns(Cases[i])
 
-Fails ==
-  C05Fails(art)
-  \cup (IF Ended THEN {} ELSE {"incomplete"})                       \* the recording stopped early
-  \cup (IF Cases[i].emit_eq THEN {} ELSE {"emitted-text"})          \* pyi # Print(ast) + newline
+(* fails / notes per run, once the last run of the case is complete *)
+All == Append(acc, [fails |-> RunFails(Cases[i], v), notes |-> C05Notes(art)])
+
+Verdict ==
+  LET c == Cases[i]
+      all == All
+      main == all[1].fails
+      present == ToSetT(c.devs)
+      VarOf(S) == {x \in DOMAIN c.variants : ToSetT(c.variants[x].without) = S}
+      full == VarOf(present)
+      residual == IF present = {} \/ full = {} THEN main
+                  ELSE all[1 + (CHOOSE x \in full : TRUE)].fails
+      needed == {d \in present : \E x \in VarOf(present \ {d}) : all[1 + x].fails # {}}
+      attr == IF main = {} THEN {}
+              ELSE IF present = {} \/ residual # {} THEN {"unexplained"}
+              ELSE IF needed = {} THEN present ELSE needed IN
+    [i |-> i, id |-> c.id, fails |-> main, attr |-> attr,
+     residual |-> IF attr = {"unexplained"} THEN residual ELSE {}]
 
 Ok ==
   AtEnd =>
-    /\ LET f == Fails IN
-         f = {} \/ PrintT(<<"BAD", ToJson([i |-> i, id |-> Cases[i].id, fails |-> f])>>)
-    /\ LET n == C05Notes(art) IN
+    /\ LET r == Verdict IN r.fails = {} \/ PrintT(<<"BAD", ToJson(r)>>)
+    /\ LET n == All[1].notes IN
          n = {} \/ PrintT(<<"NOTE", ToJson([i |-> i, id |-> Cases[i].id, notes |-> n])>>)
 
 Done == TLCGet(1)
